@@ -3,4 +3,5 @@ pub(crate) mod vx_glue {
     pub fn fix_fn_param_idents(sig: &mut syn::Signature) {
         super::fn_params::fix_fn_param_idents(sig)
     }
+    pub(crate) use super::fn_params::vx_glue_stages as stages;
 }
